@@ -9,7 +9,7 @@ theorem i4_send {s s' : State} {a : Ag} (h1 : I1 s) (h2 : I2 s) (h3 : I3 s) (hi 
   have hTk : s.taker = none ∨ ∃ b, s.taker = some b := by cases s.taker <;> simp
   have hWr : s.writer = none ∨ ∃ j, s.writer = some j := by cases s.writer <;> simp
   have hMv : s.mover = none ∨ ∃ j, s.mover = some j := by cases s.mover <;> simp
-  obtain ⟨kSend, bodyK, freshM, freshP, freshG, goneM, finR, finS, finU, freedR, freedS, freedF, ciCl, rSide, rdropCl, recvOpen, dcST⟩ := h1
+  obtain ⟨kSend, bodyK, freshM, freshP, freshG, goneM, finR, finS, finU, freedR, freedS, freedF, ciCl, rdropCl, recvOpen, dcST⟩ := h1
   obtain ⟨wrS, wrU, stW⟩ := h2
   obtain ⟨tkS, tkU, tkSt, tkSl, dead1, dead2, dead3, slotS, slotU, swapSl, casSent, freedSl⟩ := h3
   obtain ⟨acct, movedE, movedV, movedSt, swapMv, inSend, bodyRes, resErr, resOk, moverRes⟩ := hi
@@ -21,7 +21,7 @@ theorem i4_wk {s s' : State} {a : Ag} (h1 : I1 s) (h2 : I2 s) (h3 : I3 s) (hi : 
   have hTk : s.taker = none ∨ ∃ b, s.taker = some b := by cases s.taker <;> simp
   have hWr : s.writer = none ∨ ∃ j, s.writer = some j := by cases s.writer <;> simp
   have hMv : s.mover = none ∨ ∃ j, s.mover = some j := by cases s.mover <;> simp
-  obtain ⟨kSend, bodyK, freshM, freshP, freshG, goneM, finR, finS, finU, freedR, freedS, freedF, ciCl, rSide, rdropCl, recvOpen, dcST⟩ := h1
+  obtain ⟨kSend, bodyK, freshM, freshP, freshG, goneM, finR, finS, finU, freedR, freedS, freedF, ciCl, rdropCl, recvOpen, dcST⟩ := h1
   obtain ⟨wrS, wrU, stW⟩ := h2
   obtain ⟨tkS, tkU, tkSt, tkSl, dead1, dead2, dead3, slotS, slotU, swapSl, casSent, freedSl⟩ := h3
   obtain ⟨acct, movedE, movedV, movedSt, swapMv, inSend, bodyRes, resErr, resOk, moverRes⟩ := hi
@@ -33,7 +33,7 @@ theorem i4_cl {s s' : State} {a : Ag} (h1 : I1 s) (h2 : I2 s) (h3 : I3 s) (hi : 
   have hTk : s.taker = none ∨ ∃ b, s.taker = some b := by cases s.taker <;> simp
   have hWr : s.writer = none ∨ ∃ j, s.writer = some j := by cases s.writer <;> simp
   have hMv : s.mover = none ∨ ∃ j, s.mover = some j := by cases s.mover <;> simp
-  obtain ⟨kSend, bodyK, freshM, freshP, freshG, goneM, finR, finS, finU, freedR, freedS, freedF, ciCl, rSide, rdropCl, recvOpen, dcST⟩ := h1
+  obtain ⟨kSend, bodyK, freshM, freshP, freshG, goneM, finR, finS, finU, freedR, freedS, freedF, ciCl, rdropCl, recvOpen, dcST⟩ := h1
   obtain ⟨wrS, wrU, stW⟩ := h2
   obtain ⟨tkS, tkU, tkSt, tkSl, dead1, dead2, dead3, slotS, slotU, swapSl, casSent, freedSl⟩ := h3
   obtain ⟨acct, movedE, movedV, movedSt, swapMv, inSend, bodyRes, resErr, resOk, moverRes⟩ := hi
@@ -45,7 +45,7 @@ theorem i4_x {s s' : State} {a : Ag} (h1 : I1 s) (h2 : I2 s) (h3 : I3 s) (hi : I
   have hTk : s.taker = none ∨ ∃ b, s.taker = some b := by cases s.taker <;> simp
   have hWr : s.writer = none ∨ ∃ j, s.writer = some j := by cases s.writer <;> simp
   have hMv : s.mover = none ∨ ∃ j, s.mover = some j := by cases s.mover <;> simp
-  obtain ⟨kSend, bodyK, freshM, freshP, freshG, goneM, finR, finS, finU, freedR, freedS, freedF, ciCl, rSide, rdropCl, recvOpen, dcST⟩ := h1
+  obtain ⟨kSend, bodyK, freshM, freshP, freshG, goneM, finR, finS, finU, freedR, freedS, freedF, ciCl, rdropCl, recvOpen, dcST⟩ := h1
   obtain ⟨wrS, wrU, stW⟩ := h2
   obtain ⟨tkS, tkU, tkSt, tkSl, dead1, dead2, dead3, slotS, slotU, swapSl, casSent, freedSl⟩ := h3
   obtain ⟨acct, movedE, movedV, movedSt, swapMv, inSend, bodyRes, resErr, resOk, moverRes⟩ := hi
@@ -57,7 +57,7 @@ theorem i4_pb {s s' : State} {a : Ag} (h1 : I1 s) (h2 : I2 s) (h3 : I3 s) (hi : 
   have hTk : s.taker = none ∨ ∃ b, s.taker = some b := by cases s.taker <;> simp
   have hWr : s.writer = none ∨ ∃ j, s.writer = some j := by cases s.writer <;> simp
   have hMv : s.mover = none ∨ ∃ j, s.mover = some j := by cases s.mover <;> simp
-  obtain ⟨kSend, bodyK, freshM, freshP, freshG, goneM, finR, finS, finU, freedR, freedS, freedF, ciCl, rSide, rdropCl, recvOpen, dcST⟩ := h1
+  obtain ⟨kSend, bodyK, freshM, freshP, freshG, goneM, finR, finS, finU, freedR, freedS, freedF, ciCl, rdropCl, recvOpen, dcST⟩ := h1
   obtain ⟨wrS, wrU, stW⟩ := h2
   obtain ⟨tkS, tkU, tkSt, tkSl, dead1, dead2, dead3, slotS, slotU, swapSl, casSent, freedSl⟩ := h3
   obtain ⟨acct, movedE, movedV, movedSt, swapMv, inSend, bodyRes, resErr, resOk, moverRes⟩ := hi
@@ -69,7 +69,7 @@ theorem i4_try {s s' : State} {a : Ag} (h1 : I1 s) (h2 : I2 s) (h3 : I3 s) (hi :
   have hTk : s.taker = none ∨ ∃ b, s.taker = some b := by cases s.taker <;> simp
   have hWr : s.writer = none ∨ ∃ j, s.writer = some j := by cases s.writer <;> simp
   have hMv : s.mover = none ∨ ∃ j, s.mover = some j := by cases s.mover <;> simp
-  obtain ⟨kSend, bodyK, freshM, freshP, freshG, goneM, finR, finS, finU, freedR, freedS, freedF, ciCl, rSide, rdropCl, recvOpen, dcST⟩ := h1
+  obtain ⟨kSend, bodyK, freshM, freshP, freshG, goneM, finR, finS, finU, freedR, freedS, freedF, ciCl, rdropCl, recvOpen, dcST⟩ := h1
   obtain ⟨wrS, wrU, stW⟩ := h2
   obtain ⟨tkS, tkU, tkSt, tkSl, dead1, dead2, dead3, slotS, slotU, swapSl, casSent, freedSl⟩ := h3
   obtain ⟨acct, movedE, movedV, movedSt, swapMv, inSend, bodyRes, resErr, resOk, moverRes⟩ := hi
@@ -81,7 +81,7 @@ theorem i4_try2 {s s' : State} {a : Ag} (h1 : I1 s) (h2 : I2 s) (h3 : I3 s) (hi 
   have hTk : s.taker = none ∨ ∃ b, s.taker = some b := by cases s.taker <;> simp
   have hWr : s.writer = none ∨ ∃ j, s.writer = some j := by cases s.writer <;> simp
   have hMv : s.mover = none ∨ ∃ j, s.mover = some j := by cases s.mover <;> simp
-  obtain ⟨kSend, bodyK, freshM, freshP, freshG, goneM, finR, finS, finU, freedR, freedS, freedF, ciCl, rSide, rdropCl, recvOpen, dcST⟩ := h1
+  obtain ⟨kSend, bodyK, freshM, freshP, freshG, goneM, finR, finS, finU, freedR, freedS, freedF, ciCl, rdropCl, recvOpen, dcST⟩ := h1
   obtain ⟨wrS, wrU, stW⟩ := h2
   obtain ⟨tkS, tkU, tkSt, tkSl, dead1, dead2, dead3, slotS, slotU, swapSl, casSent, freedSl⟩ := h3
   obtain ⟨acct, movedE, movedV, movedSt, swapMv, inSend, bodyRes, resErr, resOk, moverRes⟩ := hi
@@ -93,7 +93,7 @@ theorem i4_poll {s s' : State} {a : Ag} (h1 : I1 s) (h2 : I2 s) (h3 : I3 s) (hi 
   have hTk : s.taker = none ∨ ∃ b, s.taker = some b := by cases s.taker <;> simp
   have hWr : s.writer = none ∨ ∃ j, s.writer = some j := by cases s.writer <;> simp
   have hMv : s.mover = none ∨ ∃ j, s.mover = some j := by cases s.mover <;> simp
-  obtain ⟨kSend, bodyK, freshM, freshP, freshG, goneM, finR, finS, finU, freedR, freedS, freedF, ciCl, rSide, rdropCl, recvOpen, dcST⟩ := h1
+  obtain ⟨kSend, bodyK, freshM, freshP, freshG, goneM, finR, finS, finU, freedR, freedS, freedF, ciCl, rdropCl, recvOpen, dcST⟩ := h1
   obtain ⟨wrS, wrU, stW⟩ := h2
   obtain ⟨tkS, tkU, tkSt, tkSl, dead1, dead2, dead3, slotS, slotU, swapSl, casSent, freedSl⟩ := h3
   obtain ⟨acct, movedE, movedV, movedSt, swapMv, inSend, bodyRes, resErr, resOk, moverRes⟩ := hi
@@ -105,7 +105,7 @@ theorem i4_call {s s' : State} {a : Ag} (h1 : I1 s) (h2 : I2 s) (h3 : I3 s) (hi 
   have hTk : s.taker = none ∨ ∃ b, s.taker = some b := by cases s.taker <;> simp
   have hWr : s.writer = none ∨ ∃ j, s.writer = some j := by cases s.writer <;> simp
   have hMv : s.mover = none ∨ ∃ j, s.mover = some j := by cases s.mover <;> simp
-  obtain ⟨kSend, bodyK, freshM, freshP, freshG, goneM, finR, finS, finU, freedR, freedS, freedF, ciCl, rSide, rdropCl, recvOpen, dcST⟩ := h1
+  obtain ⟨kSend, bodyK, freshM, freshP, freshG, goneM, finR, finS, finU, freedR, freedS, freedF, ciCl, rdropCl, recvOpen, dcST⟩ := h1
   obtain ⟨wrS, wrU, stW⟩ := h2
   obtain ⟨tkS, tkU, tkSt, tkSl, dead1, dead2, dead3, slotS, slotU, swapSl, casSent, freedSl⟩ := h3
   obtain ⟨acct, movedE, movedV, movedSt, swapMv, inSend, bodyRes, resErr, resOk, moverRes⟩ := hi
@@ -122,7 +122,7 @@ theorem i4_ret {s s' : State} {a : Ag} (h1 : I1 s) (h2 : I2 s) (h3 : I3 s) (hi :
   have hTk : s.taker = none ∨ ∃ b, s.taker = some b := by cases s.taker <;> simp
   have hWr : s.writer = none ∨ ∃ j, s.writer = some j := by cases s.writer <;> simp
   have hMv : s.mover = none ∨ ∃ j, s.mover = some j := by cases s.mover <;> simp
-  obtain ⟨kSend, bodyK, freshM, freshP, freshG, goneM, finR, finS, finU, freedR, freedS, freedF, ciCl, rSide, rdropCl, recvOpen, dcST⟩ := h1
+  obtain ⟨kSend, bodyK, freshM, freshP, freshG, goneM, finR, finS, finU, freedR, freedS, freedF, ciCl, rdropCl, recvOpen, dcST⟩ := h1
   obtain ⟨wrS, wrU, stW⟩ := h2
   obtain ⟨tkS, tkU, tkSt, tkSl, dead1, dead2, dead3, slotS, slotU, swapSl, casSent, freedSl⟩ := h3
   obtain ⟨acct, movedE, movedV, movedSt, swapMv, inSend, bodyRes, resErr, resOk, moverRes⟩ := hi
@@ -134,7 +134,7 @@ theorem i4_spur {s s' : State} {a : Ag} (h1 : I1 s) (h2 : I2 s) (h3 : I3 s) (hi 
   have hTk : s.taker = none ∨ ∃ b, s.taker = some b := by cases s.taker <;> simp
   have hWr : s.writer = none ∨ ∃ j, s.writer = some j := by cases s.writer <;> simp
   have hMv : s.mover = none ∨ ∃ j, s.mover = some j := by cases s.mover <;> simp
-  obtain ⟨kSend, bodyK, freshM, freshP, freshG, goneM, finR, finS, finU, freedR, freedS, freedF, ciCl, rSide, rdropCl, recvOpen, dcST⟩ := h1
+  obtain ⟨kSend, bodyK, freshM, freshP, freshG, goneM, finR, finS, finU, freedR, freedS, freedF, ciCl, rdropCl, recvOpen, dcST⟩ := h1
   obtain ⟨wrS, wrU, stW⟩ := h2
   obtain ⟨tkS, tkU, tkSt, tkSl, dead1, dead2, dead3, slotS, slotU, swapSl, casSent, freedSl⟩ := h3
   obtain ⟨acct, movedE, movedV, movedSt, swapMv, inSend, bodyRes, resErr, resOk, moverRes⟩ := hi
